@@ -53,7 +53,8 @@ class Builder:
     """shape -> program. Every static branch gets its own digit of `now` in a mixed-radix
     numbering, so that 2^ifs * 3^matches samples visit every combination of static choices."""
 
-    def __init__(self):
+    def __init__(self, frac=None):
+        self.frac = frac     # fraction written behind every delay length (the cell has floor(length) samples)
         self.fns = {}        # canonical shape json -> name
         self.defs = []       # source text of helper functions, definition order
         self.radix = 1       # product of the radices of the branches numbered so far
@@ -68,7 +69,7 @@ class Builder:
         if k == "mem":
             return f"mem({x})"
         if k == "delay":
-            return f"delay({ev['n']}, {x}, 1)"
+            return f"delay({ev['n']}{self.frac or ''}, {x}, 1)"
         if k == "call":
             name, tup = self.fn(ev["f"])
             return f"{name}({x}).0" if tup else f"{name}({x})"
@@ -113,8 +114,8 @@ class Builder:
         return self.fns[key]
 
 
-def shape_program(f):
-    b = Builder()
+def shape_program(f, frac=None):
+    b = Builder(frac)
     body, tup = b.body(f, "now")
     src = "\n".join(b.defs + [f"fn dsp(){{\n  {body}\n}}"]) + "\n"
     return src, b.radix
@@ -142,13 +143,21 @@ def run(tier):
 
     # ---- spec -> impl: predicted layout and event lists vs the instrumented runtimes
     reqs = []
+    nshapes = len(shapes)
     for i, s in enumerate(shapes):
         src, radix = shape_program(s["fn"])
         reqs.append({"id": i, "src": src, "n": max(2, min(72, radix)), "backends": ["vm", "wasm"], "sched": False,
                      "rec": {"events": True, "words": True}})
+        if '"delay"' in json.dumps(s["fn"]):
+            # the same shape with delay lengths that are not whole numbers (2.5, 2.75, 2.25 samples of line: the cell
+            # and every access are those of floor(length)); long enough to go round the line
+            fr = (".5", ".75", ".25")[i % 3]
+            src, radix = shape_program(s["fn"], frac=fr)
+            reqs.append({"id": nshapes + i, "src": src, "n": max(8, min(72, radix)), "backends": ["vm", "wasm"], "sched": False,
+                         "rec": {"events": True, "words": True}})
     res = vlib.run_harness("run", reqs, timeout_per_req=20)
     for req, out, crash in res:
-        s = shapes[req["id"]]
+        s = shapes[req["id"] % nshapes]
         case = {"src": req["src"], "shape": s["fn"]}
         key = vlib.canon_key(req["src"])
         if crash or out is None:
@@ -201,6 +210,10 @@ def run(tier):
     for f in sorted(glob.glob(os.path.join(vlib.REPO, "examples", "*.mmm"))
                     + glob.glob(os.path.join(vlib.REPO, "crates/lib/mimium-test/tests/mmm", "*.mmm"))):
         corpus.append((os.path.basename(f), open(f).read(), f))
+    # a stateful call site written in every sub-expression slot of every expression form (lib/sitepos.py)
+    import sitepos
+    for name, inline, _ref in sitepos.programs():
+        corpus.append((name, inline, None))
     pins = {}
     d = os.path.join(vlib.VERIF, "findings", "C05")
     if os.path.isdir(d):
